@@ -167,7 +167,9 @@ Proof.
                  rewrite lookup_set_same. discriminate.
               ** rewrite (static_inputs _ _ Sp). change (s_inputs st3) with (s_inputs st2). now rewrite Hin2.
         -- inversion H; subst r st'. apply Hroll; auto.
-      * inversion H; subst r st'. clear H.
+      * assert (Hcase : (r, st') = (Err KNone, rollback_frame st2 0) \/ (r, st') = (Val v, pop_frame st2)).
+        { destruct v; [right; now rewrite <- H|]. destruct (cl_allow_none cl); [right|left]; now rewrite <- H. }
+        destruct Hcase as [H'|H']; inversion H'; subst r st'; clear H' H; [apply Hroll; auto|].
         destruct (pop_frame_graph st2 i (s_stack st) K2) as (_ & _ & G3 & _).
         destruct (pop_frame_fields st2) as (Sp & Dp & _).
         intros e He. destruct (G3 e He) as [X|(t & r' & Ht & -> & _)].
